@@ -19,7 +19,7 @@ from sim.world import Run
 
 ID = "C14"
 LEVEL = "exploration"
-RUNS = {"quick": 40000, "thorough": 500000}
+RUNS = {"quick": 40000, "thorough": 3000000}
 BUDGET = {"quick": 100.0, "thorough": 3300.0}
 RULE = ("one run = one seeded sequence of received cEMI frames (message code x destination kind x TPCI kind) interleaved "
         "with concurrent send_telegram calls whose L_Data.con is placed before/after hand-off return, at return+3s+-eps or "
